@@ -21,7 +21,7 @@ FinishLevel(segs, lastN, lastKey, sentinel, down) ==
   LET lastS == segs[Len(segs)] IN
   IF lastS.key = sentinel
   THEN [segs |-> segs, nreal |-> Len(segs) - 1]
-  ELSE LET withExtra == IF RoundedEval(lastS, sentinel - 1, down) < lastN
+  ELSE LET withExtra == IF RoundedEval(lastS, sentinel - 1, down) < lastN /\ lastKey + 1 # sentinel   \* no key lies between last and the sentinel then
                         THEN Append(segs, Seg(lastKey + 1, 1, 0, lastN)) ELSE segs
        IN [segs |-> Append(withExtra, Seg(sentinel, 1, 0, lastN)), nreal |-> Len(segs)]
 
